@@ -268,13 +268,12 @@ spec fn spec_render_parent(m: Toks, k: Kind, fallible: bool) -> Toks {
 
 // ---------------------------------------------------------------- body wrappers (C07 C08 C17)
 // ASSUMED (unreached callee): the struct / enum init block
-uninterp spec fn spec_struct_init<'a>(input: Struct<'a>, ctx: ImplContext<'a>) -> Toks;
 uninterp spec fn spec_enum_init<'a>(input: Enum<'a>, ctx: ImplContext<'a>) -> Toks;
 
 //@stub expand.rs struct_init_block ::= fn struct_init_block<'a>(input: &'a Struct, ctx: &ImplContext) -> TokenStream
 #[verifier::external_body]
 fn struct_init_block<'a>(input: &'a Struct, ctx: &ImplContext) -> (r: TokenStream)
-    ensures r@ == spec_struct_init(*input, *ctx),
+    ensures r@ == spec_struct_init(sview(*input), cview(*ctx)),
 { unimplemented!() }
 
 //@stub expand.rs enum_init_block ::= fn enum_init_block(input: &Enum, ctx: &ImplContext) -> TokenStream
@@ -284,7 +283,7 @@ fn enum_init_block(input: &Enum, ctx: &ImplContext) -> (r: TokenStream)
 { unimplemented!() }
 
 spec fn spec_struct_main<'a>(input: Struct<'a>, ctx: ImplContext<'a>) -> Toks {
-    let init = spec_struct_init(input, ctx);
+    let init = spec_struct_init(sview(input), cview(ctx));
     if k_is_from(ctx.kind) {
         ctx.dst_ty@ + init
     } else if k_is_into(ctx.kind) {
